@@ -314,6 +314,7 @@ class ForkSim:
         self._tls = threading.local()
         self.violations = []
         self.mem = None
+        self.block_intervals = []   # (from, to, live children) of every blocking waitpid
 
     def fork(self):
         sim = self.sim
@@ -428,7 +429,12 @@ class ForkSim:
                 if flags & os.WNOHANG:
                     return 0, 0
                 self.run.count("waitpid_blocked")
-                sim.block(lambda: any(self._exited(i) for i in mine().values()), None, "waitpid")
+                t_from = sim.now
+                nk = len(kids)
+                try:
+                    sim.block(lambda: any(self._exited(i) for i in mine().values()), None, "waitpid")
+                finally:
+                    self.block_intervals.append((t_from, sim.now, nk))
         info = self.procs.get(pid)
         if info is None or info["reaped"] or info["parent"] != myproc:
             raise ChildProcessError(10, "No child processes")
@@ -551,6 +557,13 @@ class SimRun:
         gc.collect()
         self._gc_was = gc.isenabled()
         gc.disable()
+        # the server's working directory is inside the scratch tree, so that a defect which
+        # forms paths relative to the cwd cannot touch anything else on the machine
+        self._old_cwd = os.getcwd()
+        try:
+            os.chdir(os.path.dirname(self.root) if os.path.isdir(os.path.dirname(self.root)) else self.root)
+        except OSError:
+            pass
         _modstate.restore()
         _modstate.reset_functions()
         self.sim.install()
@@ -652,7 +665,12 @@ class SimRun:
                 run.sim.yield_point("subprocess")
                 r = run._real_subprocess_run(args, **kw)
                 if r.stdout:
-                    out.write(r.stdout)
+                    # the child writes to the client socket by itself: when the connection is dead the
+                    # CHILD gets the error (SIGPIPE / EPIPE); the server process never sees it
+                    try:
+                        out.write(r.stdout)
+                    except OSError:
+                        run.count("child_write_failed_silently")
                 return r
             stdin = kw.get("stdin")
             if isinstance(stdin, simfs.SimFile):
@@ -699,6 +717,10 @@ class SimRun:
             self.fs.uninstall()
             self.sim.uninstall()
             sys.stderr = self._saved_stderr
+            try:
+                os.chdir(self._old_cwd)
+            except (OSError, AttributeError):
+                pass
             gc.collect()
             if getattr(self, "_gc_was", True):
                 gc.enable()
